@@ -121,7 +121,8 @@ def run(rep):
     core.import_rules(rep, "c07", {"LOCKSTEP", "AHO-OVERLAP"})
     core.import_rules(rep, "c08", {"MEMBER-ONCE"})
     core.import_rules(rep, "c02", {"T-CONJ"})
-    core.import_rules(rep, "c06", {"TRI-MATRIX", "TRI-OR", "TRI-AND"})
+    core.import_rules(rep, "c06", {"TRI-MATRIX", "TRI-OR", "TRI-AND", "TRI-OF", "TRI-ALL"})
+    core.import_rules(rep, "c01", {"ORDER-AND", "LAW"}, key_prefixes=("ORDER-AND/shake_0/", "LAW/shake_0/flatten", "LAW/shake_0/group-of-one", "LAW/or-symmetric", "LAW/shake_1/nested-merge"))
     core.import_rules(rep, "c10", {"NESTED-MODEL", "T-NESTED"})
     # rows of the matrix are built member by member: nothing of one member may end up in another member's row, whatever their order
     core.import_rules(rep, "c03", {"L-MATRIX"}, key_prefixes=("L-MATRIX/lookup-", "L-MATRIX/one-cell-per-column", "L-MATRIX/cell-"))
